@@ -7,4 +7,5 @@ let all : (string * (Model.event list -> bool)) list = [
   ("C14", Model.chk_C14);
   ("C13", Model.chk_C13);
   ("C11", Model.chk_C11);
+  ("C04", Model.chk_C04);
 ]
